@@ -47,6 +47,7 @@ def run(F, rep, tier):
     r3 = rep.rule("R13.3", "parser actions composed along the grammar: every start alternative leaves the parsing scope at its entry depth; names are added at depth >= 1 only")
     c13.grammar_rule(F, rep, r3, g3_scope.ScopeAnalysis(F, callgraph.CallGraph(F)))
     c09.collection_equality_rule(F, rep)
+    c09.context_key_rule(F, rep)
     c10.key_coverage_rule(F, rep)
 
 
@@ -63,11 +64,12 @@ def lookup_order_rule(F, rep):
             continue
         where = "%s:%s" % (h["file"], h["line"])
         key = "lookup:%s" % name.split("::")[-1]
+        al = c10.aliases_of(h)
         # for loops over the stack with a return inside
         for lp, _ in find_hir(h["body"], lambda x: x.get("k") == "Match" and x.get("src") == "ForLoopDesugar"):
             it = strip(lp["e"])
             it = strip(it["args"][0]) if it.get("k") == "Call" and it.get("args") else it
-            names, root = c10.chain_of(it)
+            names, root = c10.chain_of(it, al)
             if not (root.get("k") == "Field" and root.get("name") == "contexts"):
                 continue
             rets = [x for x, _ in find_hir(lp["arms"], lambda x: x.get("k") == "Ret")]
@@ -80,7 +82,7 @@ def lookup_order_rule(F, rep):
                 rep.violation(rid, key, "%s returns the first hit of a scan over the context stack in stack order: an outer binding shadows an inner one" % name, where)
         # iterator chains
         for mc, _ in find_hir(h["body"], lambda x: x.get("k") == "MethodCall" and x.get("method") in FIRST_HIT | {"rfind", "rposition"}):
-            names, root = c10.chain_of(mc)
+            names, root = c10.chain_of(mc, al)
             if not (root.get("k") == "Field" and root.get("name") == "contexts"):
                 continue
             n_scan += 1
